@@ -120,6 +120,8 @@ def main():
         return finish(meta, out, src, wt, patch)
     finally:
         sh(f"git -C /repo worktree remove --force {wt}")
+        tag = wt.replace("/", "_") + "_"
+        sh(f"rm -f /verif/bin/vcheck{tag} /verif/bin/vcheck-race{tag} /verif/.scratch/alt{tag}.mod /verif/.scratch/alt{tag}.sum /verif/.scratch/c18{tag}.mod /verif/.scratch/c18{tag}.sum")
 
 def finish(meta, out, src, wt, patch):
     os.makedirs(out, exist_ok=True)
